@@ -622,6 +622,20 @@ Fixpoint expr_forbidden (e : expr) : bool :=
       end
   end.
 
+(* built from literals, template strings and operators only: whether it can fail is decided by
+   lit_ty (the image of literal_type in src/resolver.rs); a pruned one that lit_ty refuses is
+   an entry the analysis must never emit *)
+Fixpoint closed_lit (e : expr) : bool :=
+  match e with
+  | ENum _ | EStr _ | EBool _ | ENull | EInterp _ => true
+  | EBin _ a b => closed_lit a && closed_lit b
+  | EUn _ a => closed_lit a
+  | EArr es => forallb closed_lit es
+  | _ => false
+  end.
+Definition lit_trap (e : expr) : bool :=
+  closed_lit e && match lit_ty e with Some _ => false | None => true end.
+
 Definition find_live_stmt (prog : list stmt) (i : Z) : option stmt :=
   List.find (fun t => opt_eqb (stmt_sid t) (Some i)) (all_stmts_block prog).
 
@@ -632,6 +646,7 @@ Definition classify_stmt (prog : list stmt) (dead : list Z) (reads : list Z) (ss
            match writer_of t with
            | Some (d, e) =>
                if memz d dead then CNeverRead
+               else if lit_trap e then CNoClass
                else if pure_notrap_expr e then
                  if negb (memz d reads) then CNeverReadMayFail else CDeadStore
                else if expr_forbidden e then CNoClass
